@@ -1290,12 +1290,60 @@ func (c *Ctx) Script(asserts []*Term, wantModel bool) string {
 	return sb.String()
 }
 
-// Show renders a term for diagnostics (tree form, truncated).
+// Show renders a term for diagnostics (tree form, bounded output).
 func (c *Ctx) Show(t *Term) string {
-	p := &printer{c: c, refs: map[*Term]int{}, named: map[*Term]string{}, vars: map[string]Sort{}}
-	s := p.str(t, true)
+	var sb strings.Builder
+	c.show(&sb, t, 400)
+	s := sb.String()
 	if len(s) > 400 {
 		s = s[:400] + "…"
 	}
 	return s
+}
+
+func (c *Ctx) show(sb *strings.Builder, t *Term, limit int) {
+	if sb.Len() > limit {
+		return
+	}
+	switch t.Op {
+	case OConst:
+		if t.S.K == KBool {
+			if t.C == 1 {
+				sb.WriteString("true")
+			} else {
+				sb.WriteString("false")
+			}
+			return
+		}
+		sb.WriteString(bvLit(t.S.W, t.C))
+		return
+	case OVar, OBound:
+		sb.WriteString(smtName(t.Name))
+		return
+	}
+	sb.WriteByte('(')
+	switch t.Op {
+	case OExtract:
+		fmt.Fprintf(sb, "(_ extract %d %d)", t.C>>8, t.C&0xff)
+	case OZext:
+		fmt.Fprintf(sb, "(_ zero_extend %d)", t.S.W-t.Args[0].S.W)
+	case OSext:
+		fmt.Fprintf(sb, "(_ sign_extend %d)", t.S.W-t.Args[0].S.W)
+	case OForall:
+		sb.WriteString("forall")
+	case OExists:
+		sb.WriteString("exists")
+	case OFP, OApply:
+		sb.WriteString(t.Name)
+	default:
+		sb.WriteString(opNames[t.Op])
+	}
+	for _, a := range t.Args {
+		if sb.Len() > limit {
+			break
+		}
+		sb.WriteByte(' ')
+		c.show(sb, a, limit)
+	}
+	sb.WriteByte(')')
 }
